@@ -29,6 +29,7 @@ class SimDevice:
     def feed(self, conn, data):
         """bytes the daemon wrote; returns bytes to emit back"""
         out = b""
+        self.last_conn = conn
         self.linebuf += data
         while b"\n" in self.linebuf:
             line, self.linebuf = self.linebuf.split(b"\n", 1)
@@ -60,8 +61,15 @@ class SimDevice:
         if self.mode == "garbage":
             self.log.append((conn, verb, self._targets(verb, arg), "garbage"))
             return bytes(self.rng.randrange(256) for _ in range(self.rng.randint(1, 40)))
+        if self.mode == "fftail":          # line noise whose last byte in every read is 0xFF (a telnet IAC with nothing behind it)
+            self.log.append((conn, verb, self._targets(verb, arg), "fftail"))
+            return bytes(self.rng.randrange(1, 250) for _ in range(self.rng.randint(0, 12))) + b"\xff"
         if verb == "LOGIN":
             return b"ready\n"
+        if self.mode == "iacclose":        # drops the connection in the middle of a telnet sequence, once; behaves from the next connection on
+            self.log.append((conn, verb, self._targets(verb, arg), "iacclose"))
+            self.want_close.add(conn); self.mode = "healthy"
+            return self.rng.choice([b"\xff", b"\xff\xfd", b"\xff\xfb", b"\xff\xfe", b"\xff\xfc"])
         if self.mode == "hangup":          # logs in, then drops the connection whenever it receives a command
             self.log.append((conn, verb, self._targets(verb, arg), "hangup"))
             self.want_close.add(conn)
@@ -189,6 +197,12 @@ class Session:
                 self.devs[name].want_close.discard(conn)
                 if self.conn_open.get(conn, True):
                     evs.append("EOF %s" % conn)
+        # line noise (mode "fftail"): whenever the daemon talks to ANOTHER device, this one emits a few bytes ending in 0xFF
+        talk = {self.conn_dev.get(c) for c, _ in getattr(self, "_pending_rx", [])}
+        for name, dv in self.devs.items():
+            lc = getattr(dv, "last_conn", None)
+            if dv.mode == "fftail" and lc and self.conn_open.get(lc, True) and (talk - {name, None}):
+                evs.append("IN %s %s" % (lc, hx(bytes(dv.rng.randrange(1, 250) for _ in range(dv.rng.randint(0, 3))) + b"\xff")))
         for name, dv in self.devs.items():
             for conn, out in dv.tick():
                 if self.conn_open.get(conn, True):
@@ -291,6 +305,11 @@ def drive(sess, script, max_rounds=600):
                 conns = sess.dev_conns.get(step[1], [])
                 if conns:
                     evs.append("EOF %s" % conns[-1][0])
+            elif step[0] == "flood_dev":          # ("flood_dev", devname, 0|1): the peer sends without end (every read() finds more bytes)
+                conns = sess.dev_conns.get(step[1], [])
+                if conns:
+                    evs.append("FLOOD %s %d" % (conns[-1][0], step[2]))
+                    sess._flooding = bool(step[2])
         if waiting is None and sleep_until is None and i >= len(script) and not evs and r.ready == 0:
             settle = getattr(sess, "_settle", 0) + 1
             sess._settle = settle
@@ -298,7 +317,9 @@ def drive(sess, script, max_rounds=600):
                 return True                      # script done and nothing in flight (timers may remain: pings, back-off)
         # the clock: events happen now; without events the daemon sleeps its full time-out
         if r.ready > 0:
-            adv = 0                                  # something is ready already: poll returns at once
+            # something is ready already: poll returns at once.  With a flooding peer that is true in EVERY round, and real time passes
+            # while the daemon works its way through the flood: 5 ms per pass (1000 bytes each, i.e. a 200 KB/s flood)
+            adv = 5000 if getattr(sess, "_flooding", False) else 0
         elif evs:
             adv = 50 if r.timeout == 0 else 0
         elif r.timeout == 0:
